@@ -112,6 +112,11 @@ func (w *WindowCalculator) windowOffset(agentID identity.AgentID) time.Duration 
 func (w *WindowCalculator) cycleStart(t time.Time) time.Time {
 	elapsed := t.Sub(w.cfg.Epoch)
 	cycleNum := elapsed / w.cfg.CycleLength
+	// Go's division truncates towards zero; for instants before the epoch
+	// the containing cycle is the one below (floor division).
+	if elapsed%w.cfg.CycleLength < 0 {
+		cycleNum--
+	}
 	return w.cfg.Epoch.Add(cycleNum * w.cfg.CycleLength)
 }
 
